@@ -203,6 +203,7 @@ PROPS = {
         'assumptions': ['str.isspace() decides what separates arguments (uninterpreted in the proof; the reference rules use the same predicate)',
                         'os.path.realpath/isfile/dirname/join and os.access are functions of their arguments during one lookup (the file system does not change under it); what the child finally sees (execvpe, chdir, TIOCSWINSZ) is ptyprocess / the kernel and is outside the contracts',
                         'the round-trip law (quote, join, split gives back the argument list) is checked on the real function by bounded enumeration only; what is proved is that the real loop is the documented automaton for every input',
+                        'PopenSpawn: shlex.split is an oracle (some list of words; what it was asked is recorded) - that it splits by POSIX shell rules is the standard library; the command-line form is verified for os.name == "posix"',
                         "_spawn is verified for the string form (argv = split_command_line(command), any number of words, through a comprehension loop contract) and for explicit argument lists of length 1 and 2; the string form requires CmdHasWord(command), a spec predicate defined at split_command_line's call-site contract as 'the documented rules give at least one argument' (spawn('') fails with IndexError in the real code and asks for nothing to be started)"],
     },
     'C18': {
